@@ -34,8 +34,8 @@ META = {
                   "Hoeffding bounds are conservative (insensitive to biases below ~6 (lambda_max − lambda_min)/sqrt(2 shots)).",
     "shards": {"quick": 3, "thorough": 16},
     "budget_s": {"quick": 110, "thorough": 300},
-    "min_evals": {"quick": 300, "thorough": 6000},
-    "min_nontrivial": {"quick": 30, "thorough": 600},
+    "min_evals": {"quick": 300, "thorough": 3000},
+    "min_nontrivial": {"quick": 30, "thorough": 300},
     "deciding": ["born.valid", "born.gof", "born.estimate"],
     "rule": "case = (device/path, circuit, measurement list, shot specification, seed); distinct = distinct structural fingerprint; non-trivial = the exact "
             "distribution of some measured quantity has >= 2 outcomes with probability > 1e-3 (something is actually random)",
